@@ -149,6 +149,7 @@ PROPS["C11"] = {"units": [
     plain_unit("regress", "udpl", "^TestRegressC11", overlay="full"),
     rapid_unit("sequential", "udpl", "^TestC11Sequential$", 600, 16 * 6000, overlay="full"),
     rapid_unit("concurrent", "udpl", "^TestC11Concurrent$", 150, 16 * 1500, overlay="full"),
+    rapid_unit("schedules", "udpl", "^TestC11Schedules$", 250, 16 * 2500, overlay="full", shrinktime="5s"),
 ]}
 
 PROPS["C10"] = {"units": [
